@@ -157,7 +157,10 @@ func newPackage(program *loader.Program, pkgInfo *loader.PackageInfo, plugins []
 				}
 				changed = true
 				log.Printf("changing function call name from %s to %s", call.Name, name)
+				pos := call.Expr.Fun.Pos()
 				call.Expr.Fun = ast.NewIdent(name)
+				// keep the position, comments next to the name are printed relative to it
+				call.Expr.Fun.(*ast.Ident).NamePos = pos
 			}
 		}
 
